@@ -30,7 +30,12 @@ CLAIM = {
          "shapes equal the Fabric API table; "
          "(R13.3) each of the 26 ClassFile fields (and the explicit Field/Method fields of the member merge) is built from the same-named "
          "field of client and/or server and nothing else, interfaces/fields/methods use both sides in (client, server) order, members are "
-         "keyed by (name, descriptor), one-sided members and interfaces get the annotation of their own side. merge_slice has no shortcut exit and its per-key decision is reached unconditionally.",
+         "keyed by (name, descriptor), one-sided members and interfaces get the annotation of their own side. merge_slice has no shortcut exit and its per-key decision is reached unconditionally. "
+         "The side mark of a one-sided class (visit_sided_annotation) and of a one-sided field / method (the side callbacks) is pushed on every path "
+         "that returns the element: no condition other than an error exit guards the push (an element that already carries annotations is marked "
+         "too). Callbacks are read as functions whether they are closures written in place, closures bound to a local or fn items passed by name; "
+         "the role of a merge_slice callback parameter is taken from how it is called (with a Side / with two elements), not from the spelling of "
+         "its type; a private annotation helper whose callers all pass the same constant for a parameter is evaluated with that constant.",
  "note": "Not decided: exactly-once union and order preservation as behaviour over all list pairs (only the step structure that the "
          "behaviour needs), termination of the merge loop, content of merged access flags, zip attributes. Known findings: the third "
          "loop of merge_preserve_order tests the wrong list and the first loop advances one cursor only (order not preserved: "
@@ -106,6 +111,21 @@ def _resolve_plain_local(e, scope, limit=4):
             return e
         e = init
     return e
+
+
+def _callable(n, scope, crates):
+    """The function an argument in callback position denotes: a closure written in place, a closure held in a local
+    (`let key = |f| ..; merge_slice(.., key, ..)`), or a `fn` item passed by name (a nested `fn` declared in the caller or a private
+    function of the workspace crate).  -> {"params": [patterns], "body": node, "sp": span} or None."""
+    x = H.peel(_resolve_plain_local(H.peel(n), scope))
+    if x.get("k") == "closure":
+        return {"params": x["params"], "body": x["body"], "sp": x.get("sp")}
+    if x.get("k") == "path" and (x.get("res") or {}).get("r") == "def" and x["res"].get("dk") in ("Fn", "AssocFn"):
+        for cr in crates:
+            b = cr.by_key.get(x["res"].get("key"))
+            if b is not None and isinstance(b.get("body"), dict) and b.get("params") is not None:
+                return {"params": b["params"], "body": b["body"], "sp": b.get("sp")}
+    return None
 
 
 def _value_of(n):
@@ -470,22 +490,32 @@ def r13_2(c, R, spec):
     _slice_table(c, R, rid)
     _jar_table(c, R, rid, spec)
     _side_names_and_annotations(c, R, rid, spec)
-    R.floor(rid, 38)
+    R.floor(rid, 39)
 
 
 def _slice_table(c, R, rid):
-    fn = _find_fn(c, "merge_slice", lambda b: len(b["inputs"]) == 5 and any("Side" in t for t in b["inputs"]))
+    fn = _find_fn(c, "merge_slice", lambda b: len(b["inputs"]) == 5 and _is_slice(b["inputs"][0]) and _is_slice(b["inputs"][1]))
     if not R.anchor(rid, "fn dukebox::merge::merge_slice", fn):
         return
     body = fn["body"]
     pids = H.param_ids(fn)
     ins = fn["inputs"]
+    # the callback parameters by role.  The role is read from how the parameter is CALLED in the body (a callback that receives a
+    # `Side` value is the one-sided handler, one that receives two elements merges a pair), so `side: impl Fn(&T, Side) -> Result<T>`
+    # and `side: OnSide` with `where OnSide: Fn(&T, Side) -> Result<T>` are the same parameter.
+    fn_bounded = set(x["param"] for x in fn.get("bounds") or [] if (x.get("trait") or "").rsplit("::", 1)[-1] in ("Fn", "FnMut", "FnOnce"))
     fnparams = {}
-    for pid, t in zip(pids, ins):
-        if "Fn(" in t and "Side" in t:
-            fnparams[pid] = "side"
-        elif "Fn(" in t and t.count("&T") == 2:
-            fnparams[pid] = "inner"
+    for pid, t in zip(pids[2:], ins[2:]):
+        t = t or ""
+        if not ("Fn(" in t or "FnMut(" in t or t.lstrip("&").strip() in fn_bounded):
+            continue
+        shapes = set()
+        for x in H.walk(body):
+            if x.get("k") == "call" and (x.get("callee") or {}).get("r") == "local" and x["callee"]["id"] == pid:
+                tys = [(a.get("ty") or "") for a in x["args"]]
+                shapes.add("side" if SIDE_ADT in tys else ("inner" if len(tys) == 2 else "key"))
+        if len(shapes) == 1 and list(shapes)[0] != "key":
+            fnparams[pid] = list(shapes)[0]
     if not R.anchor(rid, "merge_slice parameters (client, server, get_key, side, inner)", len(pids) == 5 and sorted(fnparams.values()) == ["inner", "side"]
                     and _is_slice(ins[0]) and _is_slice(ins[1]), sp=fn["sp"]):
         return
@@ -1045,13 +1075,52 @@ def _pair_literals(e, scope):
     return pairs
 
 
-def _annotation_value(b, n, inline, side):
+def _has_sym(v):
+    """does an abstract value contain anything that is not a constant (a symbol, an uninterpreted call)?"""
+    if not isinstance(v, tuple) or not v:
+        return True
+    if v[0] in ("s", "i", "b", "c"):
+        return False
+    if v[0] == "v":
+        return any(_has_sym(x) for x in v[2])
+    if v[0] == "t":
+        return any(_has_sym(x) for x in v[1])
+    if v[0] == "st":
+        return any(_has_sym(x) for x in v[2].values())
+    return True
+
+
+def _callsite_constant(mod_bodies, key, i):
+    """The one constant every call of function `key` in the crate passes as argument #i (a private helper generalised by a parameter
+    that all of its callers fill with the same constant is the helper with that constant in place), else None."""
+    vals = []
+    for b in mod_bodies:
+        for x in H.walk(b["body"]):
+            if x.get("k") == "call" and (x.get("callee") or {}).get("key") == key:
+                if i >= len(x["args"]):
+                    return None
+                try:
+                    v = T.Evaluator().ev(x["args"][i], {})
+                except Exception:
+                    return None
+                if _has_sym(v):
+                    return None
+                vals.append(v)
+            elif x.get("k") == "path" and (x.get("res") or {}).get("r") == "def" and x["res"].get("key") == key:
+                return None     # the function is also used as a value (passed by name): not all of its arguments are visible
+    if vals and all(v == vals[0] for v in vals):
+        return vals[0]
+    return None
+
+
+def _annotation_value(b, n, inline, side, mod_bodies=()):
     """Annotation struct literal `n` of body `b`, evaluated for one side -> ({type, pairs{name: abstract value}}, evaluator)."""
     ev = _AnnEv(b["body"], inline, side)
     env = {}
     for i, (pid, t) in enumerate(zip(H.param_ids(b), b.get("inputs") or [])):
         if "Side" not in (t or ""):
-            env[pid] = T.sym("$arg%d" % i)
+            k = _callsite_constant(mod_bodies, b["key"], i) if b.get("vis", "").startswith("Restricted") else None
+            env[pid] = k if k is not None else T.sym("$arg%d" % i)
     out = {"type": None, "pairs": {}}
     for f in n["fields"]:
         if f["name"] == "annotation_type":
@@ -1075,6 +1144,7 @@ def _annotation_records(c, spec):
     ([(body, literal, shape, {side: value record}, {side: evaluator})], ids of the struct literals the evaluations went through)"""
     mod_bodies = [b for b in c.bodies if _in_mod(b) and isinstance(b.get("body"), dict)]
     inline = {b["key"]: b for b in mod_bodies if b.get("params") is not None}
+    crate_bodies = [b for b in c.bodies if isinstance(b.get("body"), dict)]      # a crate-private helper can only be called from here
     anns = []
     reached = set()
     for b in mod_bodies:
@@ -1082,7 +1152,7 @@ def _annotation_records(c, spec):
             if n.get("k") == "struct" and (n.get("adt") or "").endswith("::annotation::Annotation"):
                 vals, evs = {}, {}
                 for v in spec["env_type_constants"]:
-                    vals[v], evs[v] = _annotation_value(b, n, inline, v)
+                    vals[v], evs[v] = _annotation_value(b, n, inline, v, crate_bodies)
                     reached |= evs[v].seen
                 shp = [{"type": vals[v]["type"], "pairs": {k: _value_shape(x) if x is not None else None for k, x in vals[v]["pairs"].items()}}
                        for v in spec["env_type_constants"]]
@@ -1154,6 +1224,43 @@ def _side_names_and_annotations(c, R, rid, spec):
                     sided=_sided_annotation_fns(c, spec))
 
 
+def _success_value(e):
+    """`X?`, `match X { Ok(v) => v, Err(e) => return Err(..) }` and `if let Ok(v) = X { v } else { return .. }` all stand for the
+    value X yields on success: -> X"""
+    for _ in range(4):
+        e = H.peel(e, tries=True)
+        k = e.get("k")
+        if k == "match" and len(e["arms"]) == 2:
+            good = [a for a in e["arms"] if (H.pat_variant(a["pat"]) or (None, None))[1] in ("Ok", "Some") and len(H.pat_bindings(a["pat"])) == 1
+                    and H.local_of(H.peel(a["body"])) and H.local_of(H.peel(a["body"]))[0] == H.pat_bindings(a["pat"])[0][0] and "guard" not in a]
+            bad = [a for a in e["arms"] if a not in good and H.diverges(a["body"])]
+            if len(good) == 1 and len(bad) == 1:
+                e = e["scrut"]
+                continue
+        if k == "if" and "else" in e and H.peel(e["cond"], refs=False).get("k") == "letexpr" and H.diverges(e["else"]):
+            le = H.peel(e["cond"], refs=False)
+            bs = H.pat_bindings(le["pat"])
+            if (H.pat_variant(le["pat"]) or (None, None))[1] in ("Ok", "Some") and len(bs) == 1 and H.local_of(H.peel(e["then"])) \
+                    and H.local_of(H.peel(e["then"]))[0] == bs[0][0]:
+                e = le["init"]
+                continue
+        return e
+    return e
+
+
+def _binding_init(body, lid):
+    """initialiser of the local `lid`: `let x = init`, or `let Ok(x) = init else { <diverges> }` (the success value of init)"""
+    init = H.let_init_of(body, lid)
+    if init is not None:
+        return _success_value(init)
+    for n in H.walk(body):
+        if n.get("k") == "let" and "init" in n and "els" in n and (H.pat_variant(n["pat"]) or (None, None))[1] in ("Ok", "Some"):
+            bs = H.pat_bindings(n["pat"])
+            if len(bs) == 1 and bs[0][0] == lid:
+                return _success_value(n["init"])
+    return None
+
+
 def _mark_check(R, rid, key, body, pids, input_tys, sp, via, sided):
     """`body` clones/reads its element parameter into a local, pushes sided_annotation(<its Side parameter>) onto one of the
     local's annotation lists and returns Ok(local).  `sided` = keys of the functions building the Environment annotation."""
@@ -1170,13 +1277,22 @@ def _mark_check(R, rid, key, body, pids, input_tys, sp, via, sided):
     if len(pushes) == 1 and len(side_p) == 1 and len(elem_p) == 1:
         n, arg = pushes[0]
         root, path = H.place_root(n["recv"])
+        for _ in range(3):
+            # `let list = &mut e.runtime_visible_annotations; list.push(..)`: a mutable borrow of a place is that place
+            al = H.let_init_of(body, root[0]) if root else None
+            if al is None or al.get("k") != "ref" or not al.get("mut") or H.peel(al).get("k") not in ("field", "path"):
+                break
+            r2, p2 = H.place_root(al)
+            if r2 is None:
+                break
+            root, path = r2, p2 + path
         a0 = ([H.local_of(x) for x in arg["args"] if H.local_of(x) and H.local_of(x)[0] in side_p] or [None])[0]
         v = H.peel(_value_of(body))
         ret_ok = False
         if v.get("k") == "call" and (H.ctor_of(v) or (None, None))[1] == "Ok" and root:
             r0 = H.local_of(v["args"][0])
             ret_ok = bool(r0) and r0[0] == root[0]
-        init = H.let_init_of(body, root[0]) if root else None
+        init = _binding_init(body, root[0]) if root else None
         init_ok = False
         if init is not None:
             rr = H.recv_root(init)
@@ -1187,6 +1303,16 @@ def _mark_check(R, rid, key, body, pids, input_tys, sp, via, sided):
               and a0 is not None and a0[0] == side_p[0] and ret_ok and init_ok)
     R.inst(rid, key, ok, sp=sp, got=got,
            expect="let mut e = <element>.%s(); e.runtime_(in)visible_annotations.push(sided_annotation(<side parameter>)); Ok(e)" % via)
+    # the mark is added whatever the element already carries (seed C13-9: `if !annotations.iter().any(|a| a.annotation_type == ENVIRONMENT)
+    # { push }` leaves an element that already has the OTHER side's annotation unmarked): no condition other than the error exit of a
+    # `?` / `bail!` lies on the path to the push, and it is not inside a loop or closure of its own
+    for n, _ in pushes[:1] if len(pushes) == 1 else []:
+        conds = H.path_conditions(body, n, skip_error_exits=True)
+        inside = [p.get("k") for p in (H.parents_of(body, n) or []) if p.get("k") in ("for", "loop", "closure")]
+        R.inst(rid, key + ":unconditional", not conds and not inside, sp=n.get("sp"),
+               expect="the side annotation is pushed for every element that reaches this function",
+               got=[(k, H.render(cn)[:90] if k != "arm" else "match arm #%s of %s" % (p, H.render(cn["scrut"])[:50]), p) for k, cn, p in conds] + inside,
+               detail="an element present on one side only is marked with that side, whatever annotations it already has")
 
 
 # ------------------------------------------------------------------------------------ R13.3
@@ -1285,26 +1411,32 @@ def r13_3(c, duke, R, spec):
                    detail="merge_slice marks elements missing from its second list CLIENT and from its first list SERVER")
             if H.callee_name(n) != "merge_slice" or len(n["args"]) != 5:
                 continue
-            keycl, sidecl, innercl = [H.peel(a) for a in n["args"][2:5]]
+            # the three callbacks: closures written in place, closures held in a local, or `fn` items passed by name
+            keycl, sidecl, innercl = [_callable(a, body, (c, duke)) for a in n["args"][2:5]]
             # key
-            if keycl.get("k") == "closure" and len(_closure_params(keycl)) == 1 and len(_closure_params(keycl)[0]) == 1:
+            if keycl is not None and len(_closure_params(keycl)) == 1 and len(_closure_params(keycl)[0]) == 1:
                 p = _closure_params(keycl)[0][0][0]
                 flds = sorted(set(f for _, f in sources(keycl["body"], [p], keycl["body"])))
                 want = sorted(spec["member_identity"].get(what, []))
                 R.inst(rid, "key:ClassFile.%s" % what, flds == want and bool(want), sp=keycl["sp"], expect=want, got=flds,
                        detail="two members are the same member iff these fields agree")
             else:
-                R.unrecognised(rid, "key:ClassFile.%s" % what, "key function is not a one-parameter closure", keycl.get("sp"))
+                R.unrecognised(rid, "key:ClassFile.%s" % what, "key function is not a one-parameter closure / fn item of the workspace",
+                               (keycl or H.peel(n["args"][2])).get("sp"))
             # side callback
             if what in spec["marked_member_lists"]:
-                if sidecl.get("k") == "closure" and len(sidecl["params"]) == 2:
+                if sidecl is not None and len(sidecl["params"]) == 2:
                     cps = [b[0][0] if len(b) == 1 else None for b in _closure_params(sidecl)]
                     _mark_check(R, rid, "mark:ClassFile.%s" % what, sidecl["body"], cps, ["elem", "Side"], sidecl["sp"], via="clone",
                                 sided=_sided_annotation_fns(c, spec))
                 else:
-                    R.unrecognised(rid, "mark:ClassFile.%s" % what, "side callback is not a two-parameter closure", sidecl.get("sp"))
+                    R.unrecognised(rid, "mark:ClassFile.%s" % what, "side callback is not a two-parameter closure / fn item of the workspace",
+                                   (sidecl or H.peel(n["args"][3])).get("sp"))
             # merged member literal
-            if innercl.get("k") == "closure" and len(innercl["params"]) == 2:
+            if innercl is None and what in spec["marked_member_lists"]:
+                R.unrecognised(rid, "merged:ClassFile.%s" % what, "callback merging a member present on both sides is not a closure / fn item "
+                               "of the workspace", H.peel(n["args"][4]).get("sp"))
+            if innercl is not None and len(innercl["params"]) == 2:
                 cps = [b[0][0] if len(b) == 1 else None for b in _closure_params(innercl)]
                 mlits = [x for x in H.walk(innercl["body"]) if x.get("k") == "struct" and (x.get("adt") or "").startswith("duke::tree::")
                          and "(" not in (x.get("adt") or "")]
@@ -1437,7 +1569,7 @@ def r13_3(c, duke, R, spec):
             R.inst(rid, "interfaces:cell:%s" % nm, got == want and not undecided, sp=fn["sp"],
                    expect=sorted(want) or "not listed", got=(sorted(got) + (["<undecided condition>"] if undecided else [])) or "not listed",
                    detail="an interface implemented on one side only is listed in EnvironmentInterfaces with that side")
-    R.floor(rid, 50)
+    R.floor(rid, 52)
 
 
 # ------------------------------------------------------------------------------------ R13.4
